@@ -26,11 +26,13 @@ func (e *GateEnc) Marshal(m drpc.Message) ([]byte, error) {
 	return m.(*Msg).Data, nil
 }
 
-// Unmarshal copies the bytes, then parks if armed.
+// Unmarshal parks if armed and only then copies the bytes: a slow decoder reads the buffer the
+// library lent it for as long as it runs, so a buffer that is reused too early shows up as a
+// wrong payload.
 func (e *GateEnc) Unmarshal(b []byte, m drpc.Message) error {
-	m.(*Msg).Data = append([]byte(nil), b...)
 	if e.ArmU.Load() {
 		e.U.Wait()
 	}
+	m.(*Msg).Data = append([]byte(nil), b...)
 	return nil
 }
